@@ -31,8 +31,9 @@ structure St where
   devId : Nat
   bytes : Array Nat := #[]
   gens : List (Nat × Nat × Nat) := []     -- (count, frame size, pattern id) of generated bursts, in order
+  roll : Bool := false                    -- the connection lasts longer than the one-minute file interval
 
-def init (f : List String) : St := { device := kvS f "device", devId := nat (kvS f "id") }
+def init (f : List String) : St := { device := kvS f "device", devId := nat (kvS f "id"), roll := kvS f "roll" == "1" }
 
 def strBytes (s : String) : List Nat := s.toUTF8.toList.map (·.toNat)
 
@@ -88,6 +89,10 @@ def step (st : St) (bl : Block) : St × List String :=
   | ["end"] =>
     let e := expect st
     if !e.headerOk then (st, ["conn error"]) else
+    if st.roll then
+      -- where the stream is cut into files depends on the wall clock: the file lines are observations
+      -- (echoed); the monitor checks that together they hold every frame once, in order
+      (st, ["conn eof"] ++ ((bl.outs.filter fun o => o.head? == some "file" || o.head? == some "files").map joinSp)) else
     if !st.gens.isEmpty then
       let (h, len) := hashGenerated (CPTR.encodeHeader e.hdr) st.gens
       (st, ["conn eof", s!"file 0 .cptr hash={h} len={len}", "files 1"]) else
@@ -116,6 +121,22 @@ def monStep (m : MSt) (bl : Block) : MSt × List String :=
     let files := bl.outs.filter fun o => o.head? == some "file"
     let m := { m with frames := e.frames.length + (m.st.gens.map (·.1)).foldl (· + ·) 0 }
     if !e.headerOk then (m, []) else
+    if m.st.roll then
+      let strip (fs : List CPTR.Field) := fs.filter (·.code != 84)
+      let dec := files.map fun o => match o with
+        | [_, _, _, hex] => CPTR.decodeFile (parseHexBytes hex).toList
+        | _ => none
+      let bad := dec.any (·.isNone)
+      let all := dec.filterMap id
+      let frames := all.flatMap (·.2)
+      let hdrBad := all.any fun p => strip p.1 != strip (CPTR.headerFields e.hdr)
+      (m, (if bad then ["prop=C18 reason=file-not-well-formed-cptr-after-roll-over"] else []) ++
+          (if hdrBad then ["prop=C18 reason=header-fields-differ-after-roll-over"] else []) ++
+          (if !bad && frames != e.frames then
+             [if frames.length < e.frames.length then "prop=C18 reason=frames-lost-at-file-roll-over"
+              else if frames.length > e.frames.length then "prop=C18 reason=frames-duplicated-at-file-roll-over"
+              else "prop=C18 reason=frame-content-or-order-differs-across-files"] else []) ++
+          (if files.length < 2 then ["prop=C18 reason=no-new-file-after-the-file-interval"] else [])) else
     if !m.st.gens.isEmpty then
       let (h, len) := hashGenerated (CPTR.encodeHeader e.hdr) m.st.gens
       if files == [["file", "0", ".cptr", s!"hash={h}", s!"len={len}"]] then (m, [])
